@@ -2,7 +2,7 @@
    Statements only; proofs in Proofs/LoaderProofs.v.  What is proved here is the
    framing half (see the evidence/notes for what remains correspondence-only:
    validator = specification decoder). *)
-From DV Require Import Lib.Base Wire.Message Spec.Codec Proofs.LoaderProofs.
+From DV Require Import Lib.Base Wire.Body Wire.Message Spec.Codec Wire.HeaderEdit Proofs.LoaderProofs Proofs.CodecWf Proofs.CodecRoundtrip Proofs.BodyVbEq Proofs.BodyCursor Proofs.BodyComplete.
 From Coq Require Import ZArith.
 Local Open Scope N_scope.
 
@@ -47,6 +47,30 @@ Print Assumptions C01_conservation.
 Theorem C01_size_limit : forall max d le fl hl bl c, have_message max d = HaveOk le fl hl bl c -> 16 <= hl.
 Proof. exact have_ok_hl. Qed.
 Print Assumptions C01_size_limit.
+
+(* COMPLETENESS of the body validator on canonical encodings: for every byte order,
+   every well-formed value (of any nesting of structs, dict entries, variants and
+   arrays) encoded by the specification encoder at any position and followed by
+   any bytes is accepted by the model of validate_body_helper, which stops exactly
+   at the end of the encoding.  Premises beyond the specification's notion of a
+   well-formed value ([wire_ok]): string bytes are < 256, signature strings pass
+   the C automaton, and non-empty arrays of fixed-size elements (the validator's
+   fast path) are not covered yet -- hence "_partial". *)
+Theorem C01_value_complete_partial : forall le v d depth pos rest,
+  wfb le depth pos v = true -> wire_ok v = true -> (height v < d)%nat ->
+  vb le d (ty_of_val v) depth (curof pos (enc le v pos ++ rest)) = inl (curof (pos + nlen (enc le v pos)) rest).
+Proof. intros le v. exact (vb_enc le v). Qed.
+Print Assumptions C01_value_complete_partial.
+
+Theorem C01_body_complete_partial : forall le vs, wfsb le vs 0 0 = true -> forallb wire_ok vs = true ->
+  validate_body le (map ty_of_val vs) (encs le vs 0) = V_VALID.
+Proof. exact validate_body_complete. Qed.
+Print Assumptions C01_body_complete_partial.
+
+Definition ex_val : val :=
+  VStruct [VNum 121 5; VArr (TDict 115 TVariant) [VDictE (VStr 115 [107]) (VVar (TArray (TBasic 115)) (VArr (TBasic 115) [VStr 115 [97]; VStr 115 []]))];
+           VStr 111 [47; 97]; VNum 100 4609434218613702656].
+Example ex_val_ok : wfb true 0 3 ex_val = true /\ wire_ok ex_val = true. Proof. split; vm_compute; reflexivity. Qed.
 
 (* non-vacuity: a concrete valid message is accepted by model and by the specification *)
 Definition ex_msg : bytes := [108;2;0;1; 0;0;0;0; 1;0;0;0; 8;0;0;0; 5;1;117;0; 1;0;0;0].
